@@ -144,7 +144,8 @@ def types(ctx):
     WRITTEN_SHAPE = {'BOOLEAN': 'digits', 'INTEGER': 'digits', 'REAL': 'fraction', 'STRING': 'squoted', 'UNIQUE_ID': 'dquoted'}
     dset = set(t for t in TYPES if table[(t, WRITTEN_SHAPE[t])].kind == 'return' and table[(t, WRITTEN_SHAPE[t])].value is not None
                and not (isinstance(table[(t, WRITTEN_SHAPE[t])].value, ast.Constant) and table[(t, WRITTEN_SHAPE[t])].value.value is None))
-    if table[('SOMETHING_ELSE', 'digits')].kind == 'return' and table[('SOMETHING_ELSE', 'digits')].value is not None:
+    oe = table[('SOMETHING_ELSE', 'digits')]
+    if oe.kind == 'return' and oe.value is not None and not (isinstance(oe.value, ast.Constant) and oe.value.value is None):
         dset.add('SOMETHING_ELSE')
     df = repo.func('xtuml.meta:MetaClass.default_value')
     fset = _default_value_types(df)
